@@ -26,13 +26,14 @@ def run(ctx):
     exe = _build(ctx)
     m = seq.run(ctx, exe)
     oc, cnt = m['outcomes'], m['counters']
-    if not m['deadline_hit']:
+    # vacuity guards apply to complete runs without (unknown) violations
+    if not m['deadline_hit'] and not m['failures'] and not m['crashes']:
         for c, least in (('length_taken', 1000), ('bad_framing', 1000), ('rejected', 1000), ('conflict_flag', 1000), ('overridden_by_te_or_status', 1000),
                          ('duplicates_accepted_relaxed', 100), ('duplicates_refused_strict', 100), ('sanitised_to_one_entry', 100)):
             if cnt.get(c, 0) < least:
                 raise HarnessError('vacuity guard: counter %s = %d < %d' % (c, cnt.get(c, 0), least))
     nontriv = [k for k in oc if k.startswith('num:')]
-    cov = seq.coverage_from(m, RULE, nontrivial_classes=nontriv, min_classes=5)
+    cov = seq.coverage_from(m, RULE, nontrivial_classes=nontriv, min_classes=1 if m['deadline_hit'] else 5)
     cov['parse_calls'] = cnt.get('parse_calls', 0)
     return Result(LEVEL, cov, seq.violations_from(m), ASSUME)
 
